@@ -98,6 +98,45 @@ def conv_check(case):
 
 
 # ---------------------------------------------------------------- freduce / fexpand / fscale
+# ------------------------------------------------------------------ many traces / long signals: beyond every internal block size
+def convbig_cases(tier, seed):
+    from mc import thresholds
+    rows = thresholds.beyond(thresholds.mine([fourier], 32, 3000), extra=(130, 300, 385, 1000), cap=3100)
+    lens = thresholds.beyond(thresholds.mine([fourier], 3000, 200000), extra=(70001,), cap=210000)
+    return [("rows", r) for r in rows] + [("len", n) for n in lens]
+
+
+def convbig_check(case):
+    what, n = case
+    rng = _rng(11, n)
+    v = []
+    if what == "rows":
+        x = rng.standard_normal((n, 45))
+        w = np.hanning(9)
+        for mode in ("full", "same"):
+            out = fourier.convolve(x, w, mode=mode)
+            ref = np.stack([np.convolve(x[i], w, mode=mode) for i in range(n)])
+            got = out[:, :ref.shape[1]] if mode == "full" else out
+            if got.shape != ref.shape or np.max(np.abs(got - ref)) > 1e-9 * np.max(np.abs(ref)):
+                bad = int(np.argmax(np.max(np.abs(got - ref), axis=1))) if got.shape == ref.shape else -1
+                v.append(("convolve:many-traces", "%s convolution of a (%d, 45) array: differs from the direct convolution (worst trace %d)" % (mode, n, bad)))
+    else:
+        x = rng.standard_normal((2, n))
+        w = np.hanning(33)
+        for mode in ("full", "same"):
+            out = fourier.convolve(x, w, mode=mode)
+            ref = np.stack([scipy.signal.fftconvolve(x[i], w, mode=mode) for i in range(2)])
+            got = out[:, :ref.shape[1]] if mode == "full" else out
+            if got.shape != ref.shape or np.max(np.abs(got - ref)) > 1e-8 * np.max(np.abs(ref)):
+                v.append(("convolve:long-signal", "%s convolution of %d samples differs from the direct convolution" % (mode, n)))
+        for f, name in ((fourier.lp, "lp"), (fourier.hp, "hp")):
+            pass
+        lo, hi = fourier.lp(x, 1.0, [0.1, 0.2]), fourier.hp(x, 1.0, [0.1, 0.2])
+        if lo.shape != x.shape or np.max(np.abs(lo + hi - x)) > 1e-9 * np.max(np.abs(x)):
+            v.append(("lp+hp:long-signal", "low-pass plus high-pass is not the identity on %d samples" % n))
+    return Res(v, o=what, tr=4)
+
+
 def spec_cases(tier, seed):
     N = 600 if tier == "quick" else 2048
     return list(range(1, N + 1))
@@ -366,6 +405,7 @@ CHECK = {
     ],
     "clauses": [
         Clause("convolve", "all (nx, nw) in the box, full+same, impulse basis", cases=conv_cases, check=conv_check, setup=_setup),
+        Clause("convolve-scale", "2-D inputs with more traces / longer signals than every size constant mined from ibldsp.fourier", cases=convbig_cases, check=convbig_check, setup=_setup),
         Clause("spectra", "freduce/fexpand/fscale for every n, every axis of 1-3-D arrays", cases=spec_cases, check=spec_check, setup=_setup),
         Clause("fastsize", "ns_optim_fft(n) for every n", cases=nso_cases, check=nso_check),
         Clause("filters", "lp+hp=id, bp=hp.lp on the impulse basis, every n, every axis", cases=filt_cases, check=filt_check, setup=_setup),
